@@ -115,11 +115,11 @@ func appliedEvents(cau chain.ApplyUpdate, walletAddress types.Address) (events [
 	}
 
 	for _, txn := range block.Transactions {
-		if !relevantV1Txn(txn, walletAddress) {
-			continue
-		}
+		// a siafund claim is paid to the input's claim address, which need
+		// not be the owner of the siafunds, by transactions that need not
+		// move any of the wallet's siacoins
 		for _, si := range txn.SiafundInputs {
-			if si.UnlockConditions.UnlockHash() == walletAddress {
+			if si.ClaimAddress == walletAddress {
 				outputID := si.ParentID.ClaimOutputID()
 				sce, ok := siacoinElements[outputID]
 				if !ok {
@@ -130,6 +130,9 @@ func appliedEvents(cau chain.ApplyUpdate, walletAddress types.Address) (events [
 					SiacoinElement: sce.Copy(),
 				}, sce.MaturityHeight)
 			}
+		}
+		if !relevantV1Txn(txn, walletAddress) {
+			continue
 		}
 
 		event := EventV1Transaction{
@@ -149,11 +152,8 @@ func appliedEvents(cau chain.ApplyUpdate, walletAddress types.Address) (events [
 	}
 
 	for _, txn := range block.V2Transactions() {
-		if !relevantV2Txn(txn, walletAddress) {
-			continue
-		}
 		for _, si := range txn.SiafundInputs {
-			if si.Parent.SiafundOutput.Address == walletAddress {
+			if si.ClaimAddress == walletAddress {
 				outputID := types.SiafundOutputID(si.Parent.ID).V2ClaimOutputID()
 				sce, ok := siacoinElements[outputID]
 				if !ok {
@@ -164,6 +164,9 @@ func appliedEvents(cau chain.ApplyUpdate, walletAddress types.Address) (events [
 					SiacoinElement: sce.Copy(),
 				}, sce.MaturityHeight)
 			}
+		}
+		if !relevantV2Txn(txn, walletAddress) {
+			continue
 		}
 
 		addEvent(types.Hash256(txn.ID()), EventTypeV2Transaction, EventV2Transaction(txn), index.Height)
